@@ -80,7 +80,7 @@ def signature(sub, v):
 def execute(sc, d):
     """Run sub-check ``sc`` with draw object ``d``.
     Returns (outcome, ctx, info)."""
-    ctx = Ctx()
+    ctx = Ctx(d)
     try:
         with np.errstate(all='ignore'):
             sc.fn(d, ctx)
